@@ -2,6 +2,7 @@ PROPERTY = {'id': 'C15',
  'contract_modules': ['doctest_example', 'util_stream', 'checker', 'doctest_part', 'runner', 'plugin'],
  'functions': ['xdoctest.doctest_example:DocTest.run',
                'xdoctest.plugin:XDoctestItem.runtest',
+               'xdoctest.runner:_run_examples',
                'xdoctest.plugin:XDoctestModule.collect',
                'xdoctest.plugin:_XDoctestBase._prepare_internal_config',
                'xdoctest.core:parse_doctestables',
@@ -34,6 +35,8 @@ PROPERTY = {'id': 'C15',
                    'XDoctestItem.runtest: skipped iff force-disabled (run never called) or run returned and nothing ran; any other exception '
                    'comes out of the single run(on_error="raise") call; a normal return means run was called exactly once, in raising mode, on '
                    "this item's doctest, and something ran",
+                   '_run_examples (native side): one summary per gathered doctest, counted as failed / skipped / passed by its verdict flags '
+                   '(shared with C10)',
                    'XDoctestModule.collect: exactly one item per doctest that parse_doctestables yields for the file, in order, named by '
                    'unique_callname (= callname:num), parsed once with the style / analysis options of the command line'],
              'T': ['compile / exec / eval / asyncio.run as oracles (pyvc/models_run.py): return a value or raise any class, write to the current '
